@@ -407,6 +407,43 @@ def make_tag(depth):
     return tag
 
 
+# ---- regex predicates of the tag language
+TAG_REGEXES = ["^a", "b$", "^ab$", "a", "^b", "a$"]
+REGEX_FORMS = ["/R", "!/R", "/R & x", "x | /R", "!x & /R"]
+
+
+def regex_form_value(form, m, has_x):
+    return {"/R": m, "!/R": not m, "/R & x": m and has_x, "x | /R": has_x or m, "!x & /R": (not has_x) and m}[form]
+
+
+def make_tag_regex(nvals):
+    import re as _re
+
+    def tagre(en):
+        rx = TAG_REGEXES[en.choice("regex", len(TAG_REGEXES))]
+        form = REGEX_FORMS[en.choice("form", len(REGEX_FORMS))]
+        n = 1 + en.choice("nvals", nvals)
+        vals = [sstr.fresh_str(en, "tag%d" % i, 1 + en.choice("len%d" % i, 2), "ab") for i in range(n)]
+        has_x = en.flag("has_x")
+        pos_x = en.choice("pos_x", n + 1) if has_x else 0
+        values = list(vals)
+        if has_x:
+            values.insert(pos_x, "x")
+        text = form.replace("R", rx)
+        case = lambda mv: {"regex_form": form, "regex": rx, "text": text, "values": [mv.str(v) for v in values]}  # noqa
+        en.note_sample(case)
+        pred = taglang.parse(text)
+        got = bool(pred(list(values)))
+        # "the regex must match at least one of the values": decided per value with the same matcher semantics
+        m = False
+        for v in values:
+            if symops._symx_call(_re, "search", rx, v) is not None:
+                m = True
+        exp = regex_form_value(form, m, has_x)
+        en.must_hold(got == exp, "taglang", case, detail="predicate value %s, but the regex %s at least one of the values" % (got, "matches" if m else "does not match"))
+    return tagre
+
+
 # ---- json grammar
 def json_docs(en, depth):
     """engine-chosen JSON value of bounded shape with symbolic digits / letters; returns (text, expected value)"""
@@ -539,8 +576,12 @@ def obligations(tier):
         Obligation("O3-taglang", make_tag(2), ["taglang"],
                    desc="tag expressions of depth <= 2 rendered with minimal or full parentheses and symbolic whitespace, evaluated on a symbolic tag-membership vector",
                    bounds={"expressions": len(tag_exprs(2)), "tags": TAGS, "whitespace": "either no whitespace at all or one symbolic whitespace char (space, tab, CR, VT, FF) in every gap and at both ends"},
-                   outside=["regex predicates (/...)", "quoted tags"], encoded=[taglang.negate, taglang.oper, taglang.And.test, taglang.Or.test, taglang.Not.test, taglang.Eq.test],
+                   outside=["quoted tags"], encoded=[taglang.negate, taglang.oper, taglang.And.test, taglang.Or.test, taglang.Not.test, taglang.Eq.test],
                    budget_s=600 if thorough else 100, replay="tag", check_sample=True),
+        Obligation("O3b-taglang-regex", make_tag_regex(3 if thorough else 2), ["taglang"],
+                   desc="regex predicates (/re), alone, negated and combined with a plain tag, on lists of symbolic tag values: true iff the regex matches at least one value",
+                   bounds={"regexes": TAG_REGEXES, "forms": REGEX_FORMS, "values": "1-%d symbolic strings of 1-2 chars over 'ab', plus the plain tag x at any position or absent" % (3 if thorough else 2)},
+                   outside=["quoted regexes"], encoded=[taglang.Regex.test, taglang.negate, taglang.oper], budget_s=300 if thorough else 60, replay="tag", check_sample=True),
         Obligation("O4-json", make_json(2 if thorough else 1), ["json"],
                    desc="JSON values of bounded shape rendered to text (symbolic digits and string characters) and parsed by the example grammar",
                    bounds={"nesting depth": 2 if thorough else 1, "container size": "<= 2", "ints": "1-2 symbolic digits, optional sign", "strings": "<= 2 symbolic chars of %r, either quote kind" % STR_ALPHA},
@@ -576,6 +617,13 @@ def _native(case):
             return [] if got[0] == "fail" else ["accepted %r with %r but PEG semantics reject" % (s, got[1])]
         ok = got[0] == "ok" and same_value(got[1], r[1], [])
         return [] if ok else ["%r on %r: got %r, PEG semantics give %r" % (t, s, got, r[1])]
+    if "regex_form" in case:
+        import re as _re
+        pred = taglang.parse(case["text"])
+        got = bool(pred(list(case["values"])))
+        m = any(_re.search(case["regex"], v) for v in case["values"])
+        exp = regex_form_value(case["regex_form"], m, "x" in case["values"])
+        return [] if got == exp else ["%r on %r: %s, expected %s" % (case["text"], case["values"], got, exp)]
     if "expr" in case:
         try:
             pred = taglang.parse(case["text"])
